@@ -131,3 +131,35 @@ Definition rt_first_diff (c : rt_case) : option (nat * res gval * rres) :=
          end) (r_obs c) O
   | _ => None
   end.
+
+(* ---- C04: the variables a helper call sent against Rt/JsonEncode.v on the arguments ---- *)
+Record call_obs := { co_input : str; co_args : list (str * gval); co_vars : jval }.
+Record call_case := { c_id : nat; c_prog : conv_case; c_obs : list call_obs }.
+
+Definition call_agrees (tm : typemap) (o : call_obs) : bool :=
+  match encode tm DFUEL (GStruct (co_input o)) (VStruct (co_input o) (co_args o)) with
+  | Ok j => jval_eqb (jnorm j) (jnorm (co_vars o))
+  | _ => false
+  end.
+
+Definition call_case_agrees (c : call_case) : bool :=
+  match conv_model (c_prog c) with
+  | Ok (tm, _) => forallb (call_agrees tm) (c_obs c)
+  | _ => false
+  end.
+
+Definition call_mismatches (cs : list call_case) : list nat :=
+  map c_id (filter (fun c => negb (call_case_agrees c)) cs).
+
+Definition call_first_diff (c : call_case) : option (nat * res jval * jval) :=
+  match conv_model (c_prog c) with
+  | Ok (tm, _) =>
+      (fix go (l : list call_obs) (i : nat) :=
+         match l with
+         | [] => None
+         | o :: r => if call_agrees tm o then go r (S i)
+                     else Some (i, match encode tm DFUEL (GStruct (co_input o)) (VStruct (co_input o) (co_args o)) with Ok j => Ok (jnorm j) | e => e end,
+                                jnorm (co_vars o))
+         end) (c_obs c) O
+  | _ => None
+  end.
